@@ -1181,6 +1181,21 @@ func checkC01(r *Result) {
 			case "sort.Slice", "sort.SliceStable":
 				cons := fmt.Sprintf("%s # %s(%s)", FuncName(f), fo.FullName(), exprStr(P.Fset, call.Args[0]))
 				lit, ok := call.Args[1].(*ast.FuncLit)
+				if id, isId := call.Args[1].(*ast.Ident); !ok && isId {
+					// `less := func(i, j int) bool {…}; sort.Slice(x, less)`: the literal the local was defined with
+					ast.Inspect(body, func(m ast.Node) bool {
+						if as, isAs := m.(*ast.AssignStmt); isAs && as.Tok == token.DEFINE && len(as.Lhs) == len(as.Rhs) {
+							for k, l := range as.Lhs {
+								if lid, isLid := l.(*ast.Ident); isLid && info.Defs[lid] != nil && info.Defs[lid] == info.Uses[id] {
+									if fl, isFl := as.Rhs[k].(*ast.FuncLit); isFl {
+										lit, ok = fl, true
+									}
+								}
+							}
+						}
+						return true
+					})
+				}
 				if !ok {
 					r.broken("DET-SORT: comparator of %s at %s is not a function literal (undecided)", cons, P.Pos(call.Pos()))
 					return true
